@@ -355,3 +355,15 @@ def fam_crash_tol(rnd, n):
             out["b1.s%d.a1" % s] = ["perm"]
         res.append(scn(sh, "free", out, crash="sample", crashmax=12, fn=True, tag="crash-tol", latmax=100, waitms=5000))
     return res
+
+
+def fam_kill(rnd, n):
+    """Physical cross-validation of the logical crash points: the plan runs in a child process on a file-backed
+    sqlite store and is killed with SIGKILL when its k-th durable write has been reported."""
+    res = []
+    for i in range(n):
+        base = fam_crash(rnd, 1, fn=True)[0]
+        nw = 12 + 10 * sum(len(b["seqs"]) for b in base["shape"]["blocks"])
+        res.append({"kind": "kill", "shape": base["shape"], "mode": "free", "out": base["out"], "killat": rnd.randint(1, nw), "latmax": 1500,
+                    "contdelay": 300, "fn": True, "tag": "kill-" + base["tag"], "waitms": 6000})
+    return res
